@@ -25,6 +25,7 @@ class Shared:
         self.conv_calls = []     # (alpha, ml) passed to criteria
         self.max_level_drawn = -1
 
+        self.tagged = True       # path managers carry the (epoch, level) tag pm_offset in their deterministic path
         self.epoch = -1          # index of the current pricing on this engine (Engine.initialisation starts a new one)
         self.history = []        # per finished pricing: dict(draws=..., events=..., max_level_drawn=...)
 
@@ -73,7 +74,7 @@ def _fine_process_class():
         @property
         def deterministic_path(self):
             """a closure frozen at the time the engine asks for it (as the real coupling freezes spot and drift)"""
-            off = pm_offset(self.shared.epoch, 0)[0]
+            off = pm_offset(self.shared.epoch, 0)[0] if self.shared.tagged else 0.0
             return lambda times: np.concatenate([np.zeros(len(times) - 1), [off]])
 
         def df(self, t):
@@ -148,7 +149,7 @@ class ScriptedCoupling:
         if path_managers is not None:
             pm = copy.deepcopy(path_managers[-1])
             pm.update(self.fine_process.process_representation)
-            off = pm_offset(self.shared.epoch, self.level)
+            off = pm_offset(self.shared.epoch, self.level) if self.shared.tagged else (0.0, 0.0)
             pm.deterministic_path = lambda times: np.array([np.concatenate([np.zeros(len(times) - 1), [off[0]]]),
                                                             np.concatenate([np.zeros(len(times) - 1), [off[1]]])])
             path_managers.append(pm)
